@@ -68,7 +68,7 @@ func drawInt(t *rapid.T, n, honest *big.Int, label string) *big.Int {
 	case 9:
 		return new(big.Int).Lsh(one, uint(gen.UniformRange(t, 0, 600, label+"/pow")))
 	case 10:
-		return new(big.Int).SetBytes(rapid.SliceOfN(rapid.Byte(), 0, 80).Draw(t, label+"/rand"))
+		return new(big.Int).SetBytes(gen.Bytes(t, 0, 80, label+"/rand"))
 	case 11:
 		return new(big.Int).Mul(honest, big.NewInt(2))
 	}
@@ -80,7 +80,7 @@ func TestVerifyDifferential(t *testing.T) {
 	rt.Check(t, 2000, 160000, func(t *rapid.T) {
 		c := gen.Pick(t, curves, "curve")
 		pk, sk := drawKey(t, c)
-		digest := rapid.SliceOfN(rapid.Byte(), 0, 128).Draw(t, "digest")
+		digest := gen.Digest(t, "digest")
 		hr, hs, err := stdecdsa.Sign(rt.NewDRBG(gen.Seed().Draw(t, "entropy")), sk, digest)
 		if err != nil {
 			t.Fatalf("std sign: %v", err)
@@ -120,7 +120,9 @@ func TestVerifyDifferential(t *testing.T) {
 		if r.Cmp(hr) != 0 || sv.Cmp(hs) != 0 {
 			s.Nontrivial([]byte(c.Params().Name), sk.D.Bytes(), digest, []byte(r.String()), []byte(sv.String()))
 		}
-		s.Sample(func() any { return map[string]any{"curve": c.Params().Name, "r": r.String(), "s": sv.String(), "verdict": got} })
+		s.Sample(func() any {
+			return map[string]any{"curve": c.Params().Name, "r": r.String(), "s": sv.String(), "verdict": got}
+		})
 	})
 }
 
@@ -168,9 +170,9 @@ func drawDER(t *rapid.T, r, sv *big.Int) ([]byte, string) {
 		b[0] |= 0x80
 		return derSeq(append(append([]byte{0x02}, derLen(len(b))...), b...), si), "negative-int"
 	case 3:
-		return append(derSeq(ri, si), rapid.SliceOfN(rapid.Byte(), 1, 5).Draw(t, "tail")...), "trailing-outside"
+		return append(derSeq(ri, si), gen.Bytes(t, 1, 5, "tail")...), "trailing-outside"
 	case 4:
-		return derSeq(ri, si, rapid.SliceOfN(rapid.Byte(), 1, 5).Draw(t, "tail")), "trailing-inside"
+		return derSeq(ri, si, gen.Bytes(t, 1, 5, "tail")), "trailing-inside"
 	case 5: // long-form length where short form suffices
 		body := append(append([]byte{}, ri...), si...)
 		if len(body) < 0x80 {
@@ -198,7 +200,7 @@ func drawDER(t *rapid.T, r, sv *big.Int) ([]byte, string) {
 		d := derSeq(ri, si)
 		return d[:gen.Uniform(t, len(d), "cut")], "truncated"
 	case 13:
-		return rapid.SliceOfN(rapid.Byte(), 0, 120).Draw(t, "random"), "random"
+		return gen.Bytes(t, 0, 120, "random"), "random"
 	case 14:
 		d := derSeq(ri, si)
 		bit := gen.Uniform(t, len(d)*8, "bit")
@@ -213,7 +215,7 @@ func TestVerifyASN1Differential(t *testing.T) {
 	rt.Check(t, 2000, 160000, func(t *rapid.T) {
 		c := gen.Pick(t, curves, "curve")
 		pk, sk := drawKey(t, c)
-		digest := rapid.SliceOfN(rapid.Byte(), 0, 128).Draw(t, "digest")
+		digest := gen.Digest(t, "digest")
 		hr, hs, err := stdecdsa.Sign(rt.NewDRBG(gen.Seed().Draw(t, "entropy")), sk, digest)
 		if err != nil {
 			t.Fatalf("std sign: %v", err)
@@ -242,7 +244,9 @@ func TestVerifyASN1Differential(t *testing.T) {
 		if class != "valid" || r != hr {
 			s.Nontrivial([]byte(c.Params().Name), sk.D.Bytes(), digest, sig)
 		}
-		s.Sample(func() any { return map[string]any{"curve": c.Params().Name, "class": class, "sig": rt.Hex(sig), "verdict": got} })
+		s.Sample(func() any {
+			return map[string]any{"curve": c.Params().Name, "class": class, "sig": rt.Hex(sig), "verdict": got}
+		})
 	})
 }
 
@@ -251,7 +255,7 @@ func TestSignaturesInterop(t *testing.T) {
 	rt.Check(t, 400, 40000, func(t *rapid.T) {
 		c := gen.Pick(t, curves, "curve")
 		pk, sk := drawKey(t, c)
-		digest := rapid.SliceOfN(rapid.Byte(), 0, 128).Draw(t, "digest")
+		digest := gen.Digest(t, "digest")
 		seed := gen.Seed().Draw(t, "entropy")
 		s.Eval()
 		s.Class(c.Params().Name)
@@ -274,8 +278,8 @@ func TestSignaturesInterop(t *testing.T) {
 			return
 		}
 		// key-blinded signing: verifies under the blinded key with crypto/ecdsa
-		bk, _ := patecdsa.CreateKey(c, rapid.SliceOfN(rapid.Byte(), 1, 60).Draw(t, "blind"))
-		ctx := rapid.SliceOfN(rapid.Byte(), 0, 20).Draw(t, "ctx")
+		bk, _ := patecdsa.CreateKey(c, gen.Bytes(t, 1, 60, "blind"))
+		ctx := gen.Bytes(t, 0, 20, "ctx")
 		br, bs, err := patecdsa.BlindKeySignWithContext(rt.NewDRBG(seed), pk, bk, digest, ctx)
 		bpk, err2 := patecdsa.BlindPublicKeyWithContext(c, &pk.PublicKey, bk, ctx)
 		if err != nil || err2 != nil || !stdecdsa.Verify(&stdecdsa.PublicKey{Curve: c, X: bpk.X, Y: bpk.Y}, digest, br, bs) {
@@ -310,7 +314,9 @@ func TestSignaturesInterop(t *testing.T) {
 			rt.Fail(t, "C13/generatekey", "GenerateKey public key is not [D]G")
 			return
 		}
-		s.Sample(func() any { return map[string]any{"curve": c.Params().Name, "digest_len": len(digest), "der": rt.Hex(der)} })
+		s.Sample(func() any {
+			return map[string]any{"curve": c.Params().Name, "digest_len": len(digest), "der": rt.Hex(der)}
+		})
 	})
 }
 
@@ -436,5 +442,7 @@ func TestEntropyFaults(t *testing.T) {
 	s.EvalN(cnt)
 	s.NontrivialEnum(nt)
 	s.MarkExhaustive("every failure position 0..need+1 of the entropy reader for each signing/key-generation entry point, 4 chunkings x 2 error styles")
-	s.Sample(func() any { return fmt.Sprintf("e.g. Sign on P-384 with a reader failing after 17 of 32 bytes, 7-byte reads") })
+	s.Sample(func() any {
+		return fmt.Sprintf("e.g. Sign on P-384 with a reader failing after 17 of 32 bytes, 7-byte reads")
+	})
 }
